@@ -463,6 +463,10 @@ class ReplLockManager(object):
         self.__initialised = threading.Event()
         self.__destroying = False
         self.__lastProlongateTime = 0
+        # Locks we have asked to release (lockID -> number of the release request): not ours any more,
+        # whatever the (possibly lagging) local replica says, until a later acquisition succeeds
+        self.__releasing = {}
+        self.__requestsCounter = 0
         self.__thread = threading.Thread(target=ReplLockManager._autoAcquireThread, args=(weakref.proxy(self),))
         self.__thread.start()
         while not self.__initialised.is_set():
@@ -509,13 +513,18 @@ class ReplLockManager(object):
         :return True if acquired, False - somebody else already acquired lock
         """
         attemptTime = time.time()
+        self.__requestsCounter += 1
+        attemptNum = self.__requestsCounter
         if sync:
             acquireRes = self.__lockImpl.acquire(lockID, self.__selfID, attemptTime, callback=callback, sync=sync, timeout=timeout)
             acquireTime = time.time()
             if acquireRes:
                 if acquireTime - attemptTime > self.__autoUnlockTime / 2.0:
                     acquireRes = False
+                    self.__markReleasing(lockID)
                     self.__lockImpl.release(lockID, self.__selfID, sync=sync)
+                elif self.__releasing.get(lockID, 0) < attemptNum:
+                    self.__releasing.pop(lockID, None)
             return acquireRes
 
         def asyncCallback(acquireRes, errCode):
@@ -523,10 +532,17 @@ class ReplLockManager(object):
                 acquireTime = time.time()
                 if acquireTime - attemptTime > self.__autoUnlockTime / 2.0:
                     acquireRes = False
+                    self.__markReleasing(lockID)
                     self.__lockImpl.release(lockID, self.__selfID, sync=False)
+                elif self.__releasing.get(lockID, 0) < attemptNum:
+                    self.__releasing.pop(lockID, None)
             callback(acquireRes, errCode)
 
         self.__lockImpl.acquire(lockID, self.__selfID, attemptTime, callback=asyncCallback, sync=sync, timeout=timeout)
+
+    def __markReleasing(self, lockID):
+        self.__requestsCounter += 1
+        self.__releasing[lockID] = self.__requestsCounter
 
     def isAcquired(self, lockID):
         """Check if lock is acquired by ourselves.
@@ -535,6 +551,8 @@ class ReplLockManager(object):
         :type lockID: str
         :return True if lock is acquired by ourselves.
          """
+        if lockID in self.__releasing:
+            return False
         return self.__lockImpl.isAcquired(lockID, self.__selfID, time.time())
 
     def release(self, lockID, callback=None, sync=False, timeout=None):
@@ -550,4 +568,5 @@ class ReplLockManager(object):
         :param timeout: max operation time (default - unlimited)
         :type timeout: float
         """
+        self.__markReleasing(lockID)
         self.__lockImpl.release(lockID, self.__selfID, callback=callback, sync=sync, timeout=timeout)
